@@ -1686,3 +1686,21 @@ func init() {
 		}),
 	)
 }
+
+func init() {
+	blockSig := func(id string) core.Rule {
+		return rule(id, "VerifySignature accepts only after the block's own signature was verified", 1, func(r *Run) {
+			fn := "types.VerifySignature"
+			core.Dominated{Fn: fn, Spec: spec(isTrue("block-signature-ok", "types.(*Block).verifySignature")), Sink: core.SinkPred{Label: "return that can accept", Match: func(fl *core.Flow, n *core.GNode) bool {
+				rs, ok := n.Ast.(*ast.ReturnStmt)
+				if !ok || len(rs.Results) != 1 {
+					return false
+				}
+				tv, isC := fl.C.Info.Types[rs.Results[0]]
+				return !(isC && tv.Value != nil && tv.Value.String() == "false")
+			}}, Need: []Fact{"block-signature-ok"}, Min: 1}.Check(r)
+		})
+	}
+	extend("C27", "R27f (added after a seeded change was missed): VerifySignature cannot accept — not even for an empty list of transactions to verify — before the block-level signature has been verified (the block hash does not cover that signature).", blockSig("R27f"))
+	extend("C28", "R28e (same rule as R27f).", blockSig("R28e"))
+}
